@@ -31,6 +31,12 @@ type modUse struct {
 }
 
 const (
+	modeMixed       = 0
+	modeUseStorm    = 1 // programs consist of module imports only
+	modeGlobalStorm = 2 // programs are many tiny operations on the default global namespace
+)
+
+const (
 	flavPreloaded = 0 // all shared modules imported sequentially before the goroutines start
 	flavDisjoint  = 1 // every module is first-imported by at most one goroutine
 	flavContended = 2 // goroutines first-import the same modules concurrently
@@ -63,7 +69,7 @@ func (g *pgen) snippet(private bool) string {
 	n := fmt.Sprint(1 + r.Intn(50))
 	n8 := fmt.Sprint(2 + r.Intn(7))
 	var t string
-	switch r.Intn(22) {
+	switch r.Intn(24) {
 	case 0:
 		t = "var {S}-a = (+ {n} 2)\nset {S}-a = (* ${S}-a 3)\nput ${S}-a"
 	case 1:
@@ -77,7 +83,7 @@ func (g *pgen) snippet(private bool) string {
 	case 5:
 		t = "var {S}-a = 0\nvar {S}-b = 0\nrun-parallel { set {S}-a = {n} } { set {S}-b = 2 } { put rp }\nput ${S}-a ${S}-b"
 	case 6:
-		t = "try { fail {S} } catch e { put $e[reason][content] } finally { put fin }\nvar {S}-e = ?(fail q{n})\nput ${S}-e[reason][content]\ntry { + 1 a } catch e { put caught }"
+		t = "try { fail {S} } catch {S}-x { put ${S}-x[reason][content] } finally { put fin }\nvar {S}-e = ?(fail q{n})\nput ${S}-e[reason][content]\ntry { + 1 a } catch {S}-y { put caught }"
 	case 7:
 		t = "put before\nfail {S}-boom"
 	case 8:
@@ -97,17 +103,26 @@ func (g *pgen) snippet(private bool) string {
 	case 15:
 		t = "var {S}-d = 1\ndel {S}-d\nvar {S}-d2 = 2\nput ${S}-d2"
 	case 16:
-		t = "var {S}-s = 0\nfor x [(range {n8})] { if (== $x 3) { continue }; set {S}-s = (+ ${S}-s $x) }\nput ${S}-s\nvar {S}-w = 0\nwhile (< ${S}-w 5) { set {S}-w = (+ ${S}-w 1); if (== ${S}-w 4) { break } }\nput ${S}-w"
+		t = "var {S}-s = 0\nfor {S}-x [(range {n8})] { if (== ${S}-x 3) { continue }; set {S}-s = (+ ${S}-s ${S}-x) }\nput ${S}-s\nvar {S}-w = 0\nwhile (< ${S}-w 5) { set {S}-w = (+ ${S}-w 1); if (== ${S}-w 4) { break } }\nput ${S}-w"
 	case 17:
 		t = "deprecate {S}-old-feature\nput after-deprecate"
 	case 18:
 		t = "put [&a={n} &b=[1 2]] | to-json | from-json | put (all)[b]\norder [c a b]\nput (num 0x10) (+ 1/2 1/3) (* 1.5 2)\nprintf '%s-%d\\n' a {n}"
 	case 19:
-		t = "var {S}-l = [(peach {|x| put { put $x } } [1 2 3])]\n{ for f ${S}-l { $f } } | order | put [(all)]"
+		t = "var {S}-l = [(peach {|x| put { put $x } } [1 2 3])]\n{ for {S}-f ${S}-l { ${S}-f } } | order | put [(all)]"
 	case 20:
 		t = "print a{n} | slurp\n{ echo l1; echo l{n} } | from-lines | put [(all)]\nput (styled a{n} red | to-string | count (all))"
+	case 21:
+		// one variable read and written by two parallel tasks of the same program
+		// (legal: variables have their own lock); only the final value is output
+		t = "var {S}-v = 0\nrun-parallel { for i [(range 40)] { set {S}-v = $i } } { for i [(range 40)] { nop ${S}-v } } { for i [(range 10)] { nop ${S}-v } }\nput ${S}-v"
+	case 22:
+		t = "var {S}-f = {|x| put [$x {n}] }\nrange {n8} | peach {|i| ${S}-f $i } | order | put [(all)]\nrun-parallel { ${S}-f a } { nop (${S}-f b) }"
 	default:
 		t = "var {S}-x = [(range {n8})]\nput (count ${S}-x) ${S}-x[1..]\nvar {S}-y = (put ${S}-x | each {|l| count $l })\nput ${S}-y\nnop ?(fail ignored)"
+	}
+	if r.Intn(4) == 0 { // the deprecation registry is shared by all evaluations
+		t = "deprecate {S}-dep\n" + t
 	}
 	code := sub(t, "{S}", S, "{n}", n, "{n8}", n8, "{i}", fmt.Sprint(r.Intn(4)), "{PU}", g.PU)
 	if private {
@@ -132,7 +147,7 @@ func (g *pgen) modSnippet(private bool) (code string, file bool, mods []string) 
 		stateVar = fmt.Sprintf("s%d", g.k)
 	}
 	if m.fails {
-		return sub("try { use cmfail } catch e { put $e[reason][content] }\nput after", "{S}", S), false, mods
+		return sub("try { use cmfail } catch {S}-e { put ${S}-e[reason][content] }\nput after", "{S}", S), false, mods
 	}
 	if m.bundled {
 		if private || r.Intn(2) == 0 {
@@ -167,6 +182,53 @@ func (g *pgen) modSnippet(private bool) (code string, file bool, mods []string) 
 	default: // module state written through one import and read through another
 		return rep("{ use {spec}; set {base}:{sv} = {S} }\n{ use ./{spec} again; put $again:{sv} }\nput (is (use-mod {spec}) (use-mod {spec}))"), true, mods
 	}
+}
+
+// genGlobals produces a program of many tiny operations on the shared default
+// global namespace: every declaration must survive the concurrent
+// declarations, extensions and deletions of the other goroutines.
+func (g *pgen) genGlobals(nops int) program {
+	r := g.r
+	P := g.P
+	var vars []string
+	for len(g.ops) < nops {
+		switch c := r.Intn(10); {
+		case c < 5:
+			name := fmt.Sprintf("%s-v%d", P, g.n)
+			vars = append(vars, name)
+			g.emit(op{Kind: "eval", Code: fmt.Sprintf("var %s = %d", name, g.n)})
+		case c == 5:
+			name := fmt.Sprintf("%s-f%d", P, g.n)
+			g.emit(op{Kind: "eval", Code: fmt.Sprintf("fn %s {|a| put [$a %d] }", name, g.n)})
+			g.emit(op{Kind: "call", Fn: name + "~", Args: []string{"x"}})
+		case c == 6:
+			name := fmt.Sprintf("%s-ext%d", P, g.n)
+			g.exts = append(g.exts, name)
+			vars = append(vars, name)
+			g.emit(op{Kind: "extend", Name: name, Val: fmt.Sprintf("e%d", g.n)})
+		case c == 7 && len(g.exts) > 0:
+			name := g.exts[len(g.exts)-1]
+			g.exts = g.exts[:len(g.exts)-1]
+			for i, v := range vars {
+				if v == name {
+					vars = append(vars[:i], vars[i+1:]...)
+					break
+				}
+			}
+			g.emit(op{Kind: "delete", Name: name})
+			g.emit(op{Kind: "check", Code: "put $" + name})
+		case c == 8 && len(vars) > 0:
+			g.emit(op{Kind: "check", Code: "put $" + strings.Join(vars, " $")})
+		case c == 9 && len(vars) > 0:
+			v := vars[r.Intn(len(vars))]
+			g.emit(op{Kind: "eval", Code: fmt.Sprintf("set %s = [$%s]\nput $%s", v, v, v)})
+		}
+	}
+	if len(vars) > 0 {
+		g.emit(op{Kind: "eval", Code: "put $" + strings.Join(vars, " $")})
+	}
+	g.emit(op{Kind: "scan"})
+	return program{K: g.k, Prefix: P, Ops: g.ops}
 }
 
 func (g *pgen) gen(nops int, storm bool) program {
@@ -259,7 +321,8 @@ func (g *pgen) gen(nops int, storm bool) program {
 }
 
 // genPrograms builds the programs of one concurrent batch.
-func genPrograms(r *rand.Rand, G, flavour int, storm bool) []program {
+func genPrograms(r *rand.Rand, G, flavour int, mode int) []program {
+	storm := mode == modeUseStorm
 	// which goroutine may use which shared module
 	budgets := make([][]modUse, G)
 	for k := 0; k < G; k++ {
@@ -325,6 +388,10 @@ func genPrograms(r *rand.Rand, G, flavour int, storm bool) []program {
 		nops := 4 + r.Intn(7)
 		if storm {
 			nops = 1 + r.Intn(3)
+		}
+		if mode == modeGlobalStorm {
+			progs[k] = g.genGlobals(8 + r.Intn(10))
+			continue
 		}
 		progs[k] = g.gen(nops, storm)
 	}
